@@ -317,9 +317,9 @@ corr:
 
 // Alphabet: one or more texts per serialization class; every ordered pair is forced adjacent.
 var Alphabet = []string{
-	"a", "-a", "--a", "--", "u", "e", "E3", "\\31 a", "\\-", "é", "a\\ b", "url", "f(x)", "url(x)", "url( 'q' )", "url()", "url(a\\1 b)", "u(", "(x)", "[x]", "{x}",
+	"a", "-a", "--a", "--", "u", "e", "E3", "\\31 a", "\\-", "é", "a\\ b", "url", "f(x)", "url(x)", "url( 'q' )", "url()", "url(a\\1 b)", "url(a\\1 Bc)", "url(\\1 f0)", "url(\\7f e)", "url(\\b a)", "u(", "(x)", "[x]", "{x}",
 	"1", "+1", "-1", "1.5", ".5", "1e3", "1E-2", "5%", "-5%", "1px", "1e", "1E", "1e-x", "1\\45 3", "1\\65 3", "1--x", "1\\31 ",
-	"#a", "#1", "#-", "#-a", "#--", "@a", "@-a", "@--", "\"s\"", "'t'", "\"a\\\"b\\a c\"", "U+1", "U+1-2", "U+1??", "u+a",
+	"#a", "#1", "#-", "#-a", "#--", "#\\31 a", "#\\31 1", "#-\\32 x", "#\\-", "#\\-a", "#-\\-", "@a", "@-a", "@--", "\"s\"", "'t'", "\"a\\\"b\\a c\"", "U+1", "U+1-2", "U+1??", "u+a",
 	"!", "#", "$", "%", "&", "*", "+", ",", "-", ".", "/", ":", ";", "<", "=", ">", "?", "@", "^", "|", "~", "~=", "|=", "^=", "$=", "*=", "||", "<!--", "-->", "\\\n",
 	" ", "\n", "\t",
 }
@@ -398,11 +398,25 @@ func Run(tier string, seed uint64, modelPath, repo string, out *res.Result) erro
 	}
 	for _, s := range c06.Corpus(repo) {
 		sub := r.Sub()
+		for _, mode := range ruleModes {
+			if err := rn.rules(s, sub.Bool(), mode, "css-parsing-tests", sub.Seed()); err != nil {
+				return err
+			}
+		}
 		if err := rn.one(s, false, "css-parsing-tests", sub.Seed()); err != nil {
 			return err
 		}
 		if err := rn.one(s, true, "css-parsing-tests", sub.Seed()); err != nil {
 			return err
+		}
+	}
+	for _, css := range RuleCases {
+		for _, mode := range ruleModes {
+			for _, skip := range []bool{false, true} {
+				if err := rn.rules(css, skip, mode, "rule-case", 0); err != nil {
+					return err
+				}
+			}
 		}
 	}
 	var pool []string
@@ -427,6 +441,9 @@ func Run(tier string, seed uint64, modelPath, repo string, out *res.Result) erro
 		if err := rn.one(css, sub.Bool(), "generated", sub.Seed()); err != nil {
 			return err
 		}
+		if err := rn.rules(css, sub.Bool(), ruleModes[sub.Intn(len(ruleModes))], "generated", sub.Seed()); err != nil {
+			return err
+		}
 	}
 	for i := 0; i < nMut && len(pool) > 0; i++ {
 		sub := r.Sub()
@@ -434,6 +451,11 @@ func Run(tier string, seed uint64, modelPath, repo string, out *res.Result) erro
 		css := g.Mutate(pool[sub.Intn(len(pool))], sub.Range(1, 2))
 		if err := rn.one(css, sub.Bool(), "mutated", sub.Seed()); err != nil {
 			return err
+		}
+		if sub.P(1, 2) {
+			if err := rn.rules(css, sub.Bool(), ruleModes[sub.Intn(len(ruleModes))], "mutated", sub.Seed()); err != nil {
+				return err
+			}
 		}
 	}
 	out.ModelCalls = m.N
